@@ -190,7 +190,7 @@ def run(ctx):
         c = cases[len(cases) // 2]
         ctx.sample({'kind': 'GEN case', 'img': c['img'], 'centre_quarter_px': [c['cx'], c['cy']], 'radii_quarter_px': c['radii'], 'cog': c['cog']})
     n = 800 if q else 10000
-    recs = core.pmap(record_case, [ctx.seed * 15485863 + i for i in range(n)], chunksize=16)
+    recs = core.pmap(record_case, [ctx.seed * 15485863 + i for i in range(n)], chunksize=16, on_raise='drop')
     ver = core.validate_batch(ctx, 'Trace_Profiles', recs, 'Trace:Profiles')
     for rec in recs:
         v = ver[rec['id']]
